@@ -32,7 +32,8 @@ Theorem C05_failing_patch_leaves_the_stack :
   forall fuel st index acc st' rejs,
   rollback_and_render_rej fuel st index acc = ROk (st', rejs) ->
   (length (a_applied st) < fuel)%nat ->
-  exists l, rejs = acc ++ l /\ a_applied st' = below (a_applied st) index /\
+  exists l, rejs = fold_left (fun a r => add_rej (fst r) (snd r) a) l acc /\
+            a_applied st' = below (a_applied st) index /\
             Forall2 (fun s r => fst r = rej_name (st_target s) /\ write_rej_bytes s = ROk (snd r))
                     (rejected (a_applied st) index) l.
 Proof. exact render_spec. Qed.
